@@ -60,7 +60,49 @@ def digests_main(argv) -> int:
     return 0
 
 
+def monitor_selfcheck() -> list[str]:
+    """The scheduler's purity / idempotence monitors must fire on synthetic graphs built to violate them
+    (a task body that scribbles on its input block; a task body that draws from numpy's global RNG)."""
+    import dask
+    import dask.array as da
+    import numpy as np
+
+    from . import sched
+    problems = []
+
+    def scribble(x):
+        x *= 2.0
+        return x.sum(keepdims=True)
+
+    def noisy(x):
+        return x + np.random.random(x.shape)
+
+    b = da.from_array(np.arange(12.0).reshape(4, 3), chunks=(2, 3)) + 1
+    d = b.sum() + b.map_blocks(scribble, chunks=((1, 1), (1,))).sum()
+    s1 = sched.SimScheduler(1, sched.Config(W=2, reexec=0.5))
+    with dask.config.set(scheduler=s1.get):
+        d.compute()
+    if not any("impure task" in m for m in s1.monitor_failures):
+        problems.append("purity monitor did not fire on a task that mutates its input block")
+    s2 = sched.SimScheduler(2, sched.Config(W=2, reexec=0.9))
+    with dask.config.set(scheduler=s2.get):
+        b.map_blocks(noisy).sum().compute()
+    if s2.stats.fault.get("reexec", 0) and not any("non-idempotent" in m for m in s2.monitor_failures):
+        problems.append("idempotence monitor did not fire on a task that draws from the global RNG")
+    s3 = sched.SimScheduler(3, sched.Config(W=3, reexec=0.3, transient=0.2, stall=0.3))
+    with dask.config.set(scheduler=s3.get):
+        v = float((b @ b.T).sum().compute())
+    if abs(v - float(((np.arange(12.0).reshape(4, 3) + 1) @ (np.arange(12.0).reshape(4, 3) + 1).T).sum())) > 1e-9 or s3.monitor_failures:
+        problems.append("a pure graph was not computed correctly / raised a monitor alarm under faults")
+    return problems
+
+
 def main(argv) -> int:
+    problems = monitor_selfcheck()
+    print("monitor self-check:", "OK (purity and idempotence monitors fire on synthetic offenders, stay quiet on a pure graph)"
+          if not problems else problems)
+    if problems:
+        return 2
     n, props, base = 60, "C12,C13,C14", 7000
     for a in argv:
         if a.startswith("--n="):
